@@ -6,6 +6,8 @@ from __future__ import annotations
 
 from pathlib import Path
 
+import numpy as np
+
 from hypothesis import strategies as st
 
 from vlib import dsops
@@ -24,19 +26,30 @@ META_NESTED = [
     {"k": 1, "n": {"a": 1, "b": [1, 2]}},
     {"n": {"b": [1, 2], "a": 1}, "k": 1},
 ]
+# text outside ASCII (one, two, three and four byte UTF-8 sequences): the
+# number of characters of the metadata files differs from their byte size
+META_TEXT = [
+    {"tag": "n\u00e9\u6f22\U0001f600", "k\u00fc": "\u00a0"},
+    # two different values whose hashes are equal in CPython
+    # (hash(-1) == hash(-2)): equality, not the hash, identifies a value
+    {"k": -1},
+    {"k": -2},
+]
 N_SCALAR_META = 2 + len(META_VALUES)  # indices 0..N_SCALAR_META-1
 N_ALL_META = N_SCALAR_META + len(META_NESTED)
+IDX_META_TEXT = N_ALL_META  # index of META_TEXT[0]
+IDX_META_NEG = [N_ALL_META + 1, N_ALL_META + 2]
 
 
 def meta_of(idx: int):
     """0 -> argument absent, 1 -> {}, >=2 -> a fresh deep copy of one of
-    META_VALUES + META_NESTED (key insertion order preserved)."""
+    META_VALUES + META_NESTED + META_TEXT (key insertion order preserved)."""
     import copy
     if idx == 0:
         return None
     if idx == 1:
         return {}
-    table = META_VALUES + META_NESTED
+    table = META_VALUES + META_NESTED + META_TEXT
     return copy.deepcopy(table[(idx - 2) % len(table)])
 
 
@@ -63,7 +76,8 @@ def st_runs(eps_hint: int,
     run = st.tuples(
         st.integers(0, 2),
         st_count(eps_hint, min_count),
-        (st.sampled_from([0, 0, 0, 1, 2, 3, 4, 4, 5, 6, 6, 7])
+        (st.sampled_from([0, 0, 0, 1, 2, 3, 4, 4, 5, 6, 6, 7, IDX_META_TEXT] +
+                         IDX_META_NEG)
          if metas else st.just(0)),
         # position of an attempted-and-rejected write inside the run
         st.one_of(st.none(), st.none(), st.none(), st.integers(0, 12)),
@@ -83,6 +97,12 @@ def st_dir():
     })
 
 
+# The writer program seeds the global random number generators before a
+# session (a script starting with random.seed(0) which is run once per
+# session is ordinary use); None = leaves them alone.
+ST_RSEED = st.sampled_from([None, None, None, 0, 0, 1])
+
+
 def st_filler_op(eps_hint: int, metas: bool = True, busy: bool = False):
     return st.fixed_dictionaries({
         "k": st.just("filler"),
@@ -90,6 +110,7 @@ def st_filler_op(eps_hint: int, metas: bool = True, busy: bool = False):
         "runs": st_runs(eps_hint, metas=metas, min_runs=int(busy),
                         min_count=int(busy)),
         "reopen": st.booleans(),
+        "rseed": ST_RSEED,
     })
 
 
@@ -106,6 +127,7 @@ def st_multi_op(eps_hint: int,
                             max_size=4),
         "sp": sp,
         "reopen": st.booleans(),
+        "rseed": ST_RSEED,
     })
 
 
@@ -133,7 +155,8 @@ def st_desc(formats=("fb", "npz"),
             payload: bool = True,
             hashes=None,
             eps=None,
-            tfrec_weight: int = 0):
+            tfrec_weight: int = 0,
+            var_attr: bool = False):
     fmts = list(formats) * 4 + (["tfrec"] * tfrec_weight)
 
     @st.composite
@@ -147,7 +170,10 @@ def st_desc(formats=("fb", "npz"),
                          max_size=3))
         else:
             h = draw(hashes)
-        d = dsops.simple_desc(fmt, comp, e, h, payload=payload)
+        # var_attr: half of the npz / tfrec datasets also declare a
+        # variable-size attribute (after the fixed-size ones)
+        d = dsops.simple_desc(fmt, comp, e, h, payload=payload,
+                              var_attr=var_attr and draw(st.booleans()))
         return d
 
     return build()
@@ -260,6 +286,11 @@ class History:
         if op.get("reopen"):
             self.reopen()
             info["reopened"] = True
+        if op.get("rseed") is not None:
+            import random
+            random.seed(op["rseed"])
+            np.random.seed(op["rseed"])
+            info["rseed"] = op["rseed"]
         if kind == "filler":
             subdir, relation = self.resolve_dir(op["dir"])
             info["dir"] = subdir
